@@ -39,7 +39,7 @@ ANCHORS = ["txtorcon.torcontrolprotocol:TorControlProtocol.connectionLost",
            "txtorcon.util:SingleObserver.fire", "txtorcon.util:SingleObserver.already_fired",
            "txtorcon.util:SingleObserver.when_fired"]
 FLOORS = {"quick": {"evaluations": 3000, "deferreds_audited": 8000, "postloss_submissions": 2000,
-                    "disconnect_notifications_audited": 2000, "unanswered_quit_or_signal_audited": 300,
+                    "disconnect_notifications_audited": 2000, "unanswered_quit_or_signal_audited": 300, "losses_from_inside_a_reply_callback": 300,
                     "reach:txtorcon.torcontrolprotocol:TorControlProtocol.connectionLost": 3000},
           "thorough": {"evaluations": 60000, "deferreds_audited": 150000, "postloss_submissions": 40000}}
 
@@ -183,6 +183,18 @@ def run_case(case, rec):
                     rr.deferred.cancel()
             return inner_lose(r)
         s.lose = cancel_then_lose
+    if case.get("lose_in_callback") is not None:
+        # the application's own reply callback hangs up and the transport reports the loss at
+        # once: connectionLost() runs re-entrantly, inside the delivery of that reply
+        orig_fired = s._fired
+
+        def fired(r):
+            orig_fired(r)
+            if r.idx == case["lose_in_callback"] and not s.lost and s.stage == "run":
+                rec.count("losses_from_inside_a_reply_callback")
+                s.transport.loseConnection()
+                s.lose(reason)
+        s._fired = fired
     s.run(cut_at=case["cut"], reason=reason)
     if not s.lost:
         s.lose(reason)
@@ -214,6 +226,8 @@ def run_case(case, rec):
         pos = "between-replies"
     else:
         pos = "mid-reply"
+    if case.get("lose_in_callback") is not None and s.transport.lose_calls:
+        pos = "inside-reply-callback"
     unanswered = 0
     icls_q = None
     # ---- oracle
@@ -315,6 +329,21 @@ def _run_shard(spec, rec):
                     rec.sample(c)
             rec.count("sessions_cut_at_every_offset")
         rec.enumerated("every byte offset of each session's server stream as the loss point")
+    elif mode == "callback-loss":
+        # the connection goes away from inside the reply callback of one of the commands
+        for i in range(spec["n"]):
+            rnd = gen.rnd_for(spec["seed"], "C03cb", spec["shard"], i)
+            case = gen_case(rnd, boot_in_run=False)
+            cands = [k for k, c in enumerate(case["cmds"]) if not c.get("post") and not c.get("late_watch")]
+            if not cands:
+                continue
+            case["lose_in_callback"] = rnd.choice(cands)
+            case["cancels"] = [k for k in case["cancels"] if k != case["lose_in_callback"]]
+            case["cut"] = case["total"] + 2
+            case["chunking"] = [1]      # the triggering reply ends its chunk: 'answered' is decided by offsets
+            run_case(case, rec)
+            if i < 2:
+                rec.sample(case)
     elif mode == "random":
         for i in range(spec["n"]):
             rnd = gen.rnd_for(spec["seed"], "C03r", spec["shard"], i)
@@ -334,9 +363,11 @@ def plan(tier, seed):
     if tier == "quick":
         sp = [{"mode": "every-offset", "n": 500, "maxlen": 150, "max_cmds": 3} for _ in range(6)]
         sp += [{"mode": "every-offset", "n": 700, "maxlen": 800, "max_cmds": 2, "boot": True} for _ in range(3)]
-        sp += [{"mode": "random", "n": 500} for _ in range(6)]
+        sp += [{"mode": "random", "n": 500} for _ in range(5)]
+        sp += [{"mode": "callback-loss", "n": 400} for _ in range(2)]
     else:
         sp = [{"mode": "every-offset", "n": 15000, "maxlen": 600, "max_cmds": 6} for _ in range(10)]
         sp += [{"mode": "every-offset", "n": 12000, "maxlen": 1400, "max_cmds": 4, "boot": True} for _ in range(4)]
         sp += [{"mode": "random", "n": 10000} for _ in range(6)]
+        sp += [{"mode": "callback-loss", "n": 8000} for _ in range(3)]
     return sp
